@@ -358,6 +358,10 @@ def run_check(check, tier, seed):
     b = check.budgets(tier)
     nworkers = max(1, min(b.get("workers", 8), os.cpu_count() or 1))
     examples = b.get("examples", 0)
+    if os.environ.get("VCHECK_WORKERS"):          # diagnostics only (coverage measurement)
+        nworkers = int(os.environ["VCHECK_WORKERS"])
+    if os.environ.get("VCHECK_EXAMPLES"):
+        examples = int(os.environ["VCHECK_EXAMPLES"])
     if examples and not violations:
         per = max(1, examples // nworkers)
         jobs = [(check.id, tier, seed, i, nworkers, per) for i in range(nworkers)]
